@@ -249,7 +249,7 @@ func solvePath(ps *PathScript, workDir string, perQueryMs int, onlySolver string
 				if err := os.WriteFile(file, []byte(sv.Pre+cscript), 0o644); err != nil {
 					continue
 				}
-				res, secs, _ := runScript(sv, file, 5000, nobl)
+				res, secs, _ := runScript(sv, file, 3000, nobl)
 				record(sv, secs)
 				for _, o := range ps.Obls {
 					if o.Trivial || o.Kind == "cover" {
